@@ -31,6 +31,19 @@
 (*   engineMin       TlsConfig::minVersion of the engine side: 0 (unset), 10, 11, 12, 13                    *)
 (*   lax             TlsConfig::ciphers = "ALL:@SECLEVEL=0" on the engine side (the only configuration in   *)
 (*                   which this system's OpenSSL would negotiate TLS 1.0/1.1 at all - measured)             *)
+(*   scheme          via HttpClient only ("-" elsewhere): the scheme text of the URL: "https", its letter-case   *)
+(*                   variants "HTTPS" "Https" "hTTps" (an https URL all the same: tlsRequested = TRUE), "http",  *)
+(*                   "garbage" (httpss, ftp, ...: not an https URL, tlsRequested = FALSE)                        *)
+(*   port            via HttpClient only: "explicit" (host:port in the URL) | "default" (no port: 443 / 80 of a  *)
+(*                   private loopback address on which the driver listens on BOTH)                               *)
+(*   certLife        validity window of the PEER's certificate (server certificate for role Client, client       *)
+(*                   certificate for role Server) relative to a boundary in time: "Static" (the fixed test       *)
+(*                   certificates), "ExpiresLater" (valid before, expired after), "ValidLater" (not yet valid    *)
+(*                   before, valid after); generated at run time                                                 *)
+(*   when            the judged connection is made "Before" or "After" the boundary                              *)
+(*   transport       "Fresh": the transport / HttpClient / listener is started right before the judged           *)
+(*                   connection; "Reused": it was started (and carried a connection) before the boundary and     *)
+(*                   the judged connection is a NEW connection through the same running object after it          *)
 EXTENDS Naturals, TLC, Json
 
 CONSTANTS
@@ -38,7 +51,10 @@ CONSTANTS
   Dev_NoHostnameCheck_HttpClient,         \* F-07a: HttpClient resolves the host to an IP literal before connecting, the engine never sees the name
   Dev_PlaintextFallbackWhenTlsNotEnabled, \* F-07b: TLS requested without a context => the session silently runs in clear text
   Dev_ClientCertRequestedNotRequired,     \* F-07c: SSL_VERIFY_PEER without SSL_VERIFY_FAIL_IF_NO_PEER_CERT on the server context
-  Dev_NoVersionFloor                      \* (self-test / mutation only) applyTls12Floor missing
+  Dev_NoVersionFloor,                     \* (self-test / mutation only) applyTls12Floor missing
+  Dev_HttpSchemeCaseDowngrade,            \* (self-test / mutation only) the URL parser accepts any letter case, the scheme -> TlsMode
+                                          \* mapping and the default-port choice compare with "https" exactly
+  Dev_VerifyClockFrozenAtStart            \* (self-test / mutation only) the verification time is fixed when the context is built
 
 VARIABLES c, pc, out
 vars == <<c, pc, out>>
@@ -52,7 +68,11 @@ Max2(a, b)  == IF a > b THEN a ELSE b
 
 Base == [role |-> "Client", via |-> "Transport", tlsRequested |-> TRUE, tlsEnabled |-> TRUE, peerKind |-> "TLS",
          verify |-> FALSE, requireClientCert |-> FALSE, anchor |-> "None", serverCert |-> "Valid",
-         clientCert |-> "None", byName |-> FALSE, clientMax |-> 13, serverMax |-> 13, engineMin |-> 0, lax |-> FALSE]
+         clientCert |-> "None", byName |-> FALSE, clientMax |-> 13, serverMax |-> 13, engineMin |-> 0, lax |-> FALSE,
+         scheme |-> "-", port |-> "explicit", certLife |-> "Static", when |-> "Before", transport |-> "Fresh"]
+HttpsCaseVariants == {"HTTPS", "Https", "hTTps"}
+SchemeIsHttps(s)  == s = "https" \/ s \in HttpsCaseVariants
+SchemeOf(via, tls) == IF via = "HttpClient" THEN (IF tls THEN "https" ELSE "http") ELSE "-"
 
 -----------------------------------------------------------------------------
 (* The matrix, pruned: a dimension that cannot influence the decision in a family is held at its canonical   *)
@@ -65,19 +85,21 @@ FamA(x) == \E via \in {"Transport", "TransportSync", "HttpClient"}, verify \in B
               emin \in (IF via = "HttpClient" THEN {0} ELSE Mins),
               lax \in (IF via = "HttpClient" THEN {FALSE} ELSE BOOLEAN) :
               x = [Base EXCEPT !.via = via, !.verify = verify, !.anchor = anchor, !.serverCert = sc, !.byName = bn,
-                               !.serverMax = smax, !.engineMin = emin, !.lax = lax]
+                               !.serverMax = smax, !.engineMin = emin, !.lax = lax, !.scheme = SchemeOf(via, TRUE)]
 \* B: engine = client, TLS requested and configured, the peer does not speak TLS
 FamB(x) == \E via \in {"Transport", "TransportSync", "HttpClient"}, pk \in {"Plaintext", "Garbage"},
               verify \in BOOLEAN, bn \in BOOLEAN :
               x = [Base EXCEPT !.via = via, !.peerKind = pk, !.verify = verify,
-                               !.anchor = IF verify THEN "RightCA" ELSE "None", !.byName = bn]
+                               !.anchor = IF verify THEN "RightCA" ELSE "None", !.byName = bn,
+                               !.scheme = SchemeOf(via, TRUE)]
 \* C: engine = client, TLS requested but no client context configured (HttpClient always configures one)
 FamC(x) == \E via \in {"Transport", "TransportSync"}, pk \in {"TLS", "Plaintext", "Garbage"}, bn \in BOOLEAN :
               x = [Base EXCEPT !.via = via, !.tlsEnabled = FALSE, !.peerKind = pk, !.byName = bn]
 \* D: engine = client, no TLS requested (the property demands nothing; kept so that the antecedents are exercised both ways)
 FamD(x) == \E via \in {"Transport", "TransportSync", "HttpClient"}, en \in BOOLEAN :
               /\ (via = "HttpClient" => en)
-              /\ x = [Base EXCEPT !.via = via, !.tlsRequested = FALSE, !.tlsEnabled = en, !.peerKind = "Plaintext"]
+              /\ x = [Base EXCEPT !.via = via, !.tlsRequested = FALSE, !.tlsEnabled = en, !.peerKind = "Plaintext",
+                                  !.scheme = SchemeOf(via, FALSE)]
 SBase == [Base EXCEPT !.role = "Server", !.via = "Listener"]
 \* E: engine = server, handshake attempted with a TLS client
 FamE(x) == \E req \in BOOLEAN, cc \in ClientCerts, cmax \in Vers, emin \in Mins, lax \in BOOLEAN :
@@ -107,8 +129,32 @@ FamJ(x) == \/ \E req \in BOOLEAN, cc \in ClientCerts, cmax \in {12, 13} :
                  x = [HBase EXCEPT !.peerKind = pk, !.requireClientCert = req, !.anchor = IF req THEN "RightCA" ELSE "None"]
            \/ x = [HBase EXCEPT !.tlsRequested = FALSE, !.tlsEnabled = FALSE, !.peerKind = "Plaintext"]
 
+\* K: HttpClient, the URL's scheme in every letter case, with and without a port.  The peer answers TLS and clear text
+\*    alike (it looks at the first byte of each connection), so a downgrade completes and shows
+KBase == [Base EXCEPT !.via = "HttpClient"]
+FamK(x) == \/ \E sch \in {"https"} \cup HttpsCaseVariants, pt \in {"explicit", "default"}, verify \in BOOLEAN,
+                 sc \in {"Valid", "SelfSigned"} :
+              \E bn \in (IF pt = "explicit" THEN BOOLEAN ELSE {FALSE}) :
+                 x = [KBase EXCEPT !.scheme = sch, !.port = pt, !.verify = verify,
+                                   !.anchor = IF verify THEN "RightCA" ELSE "None", !.serverCert = sc, !.byName = bn]
+           \/ \E pt \in {"explicit", "default"} :
+                 x = [KBase EXCEPT !.scheme = "http", !.port = pt, !.tlsRequested = FALSE, !.peerKind = "Plaintext"]
+           \/ \E pt \in {"explicit", "default"} :
+                 x = [KBase EXCEPT !.scheme = "garbage", !.port = pt, !.tlsRequested = FALSE]
+\* L: the peer's certificate crosses a validity boundary while the engine object lives on
+Timing == {<<"Before", "Fresh">>, <<"After", "Fresh">>, <<"After", "Reused">>}
+FamL(x) == \/ \E via \in {"Transport", "TransportSync", "HttpClient"}, life \in {"ExpiresLater", "ValidLater"},
+                 tm \in Timing, verify \in BOOLEAN, smax \in {12, 13} :
+                 x = [Base EXCEPT !.via = via, !.scheme = SchemeOf(via, TRUE), !.certLife = life, !.when = tm[1],
+                                  !.transport = tm[2], !.verify = verify,
+                                  !.anchor = IF verify THEN "RightCA" ELSE "None", !.serverMax = smax]
+           \/ \E life \in {"ExpiresLater", "ValidLater"}, tm \in Timing, req \in BOOLEAN, cmax \in {12, 13} :
+                 x = [SBase EXCEPT !.certLife = life, !.when = tm[1], !.transport = tm[2], !.requireClientCert = req,
+                                   !.anchor = IF req THEN "RightCA" ELSE "None", !.clientCert = "Valid",
+                                   !.clientMax = cmax]
+
 IsCase(x) == FamA(x) \/ FamB(x) \/ FamC(x) \/ FamD(x) \/ FamE(x) \/ FamF(x) \/ FamG(x) \/ FamH(x) \/ FamI(x)
-             \/ FamJ(x)
+             \/ FamJ(x) \/ FamK(x) \/ FamL(x)
 
 -----------------------------------------------------------------------------
 (* Abs: the property's policy.  An outcome o = [admitted, clear, ver]:                                       *)
@@ -118,9 +164,15 @@ IsCase(x) == FamA(x) \/ FamB(x) \/ FamC(x) \/ FamD(x) \/ FamE(x) \/ FamF(x) \/ F
 (*   ver       protocol version of a handshake the peer completed (0 = none)                                 *)
 (* Weak readings, written down: a TLS server session is "admitted" when the handshake is announced or data   *)
 (* flows, not when onAccept reports the TCP accept; without verifyPeer only the no-clear-text and version    *)
-(* clauses apply; for IP-literal connections no name is demanded.                                            *)
+(* clauses apply; for IP-literal connections no name is demanded.  An URL whose scheme is https in ANY letter  *)
+(* case is a request for TLS (RFC 3986 s.3.1: schemes are case-insensitive); refusing it is always allowed.   *)
+(* Every handshake is judged at ITS OWN time: the peer's certificate must be within its validity period when *)
+(* the judged connection is made, however long the engine object has been running.                           *)
 ChainsToAnchor(x)   == x.anchor = "RightCA" /\ x.serverCert \in {"Valid", "Expired", "WrongName", "KeyMismatch"}
-WithinValidity(x)   == x.serverCert # "Expired"
+TimeOkAt(life, w)   == CASE life = "ExpiresLater" -> w = "Before"
+                         [] life = "ValidLater"   -> w = "After"
+                         [] OTHER                 -> TRUE
+WithinValidity(x)   == x.serverCert # "Expired" /\ TimeOkAt(x.certLife, x.when)
 ProvesPossession(x) == x.serverCert # "KeyMismatch"
 IssuedForName(x)    == x.serverCert # "WrongName"
 
@@ -132,7 +184,7 @@ AbsAllows(x, o) ==
         /\ ChainsToAnchor(x) /\ WithinValidity(x) /\ ProvesPossession(x)
         /\ x.byName => IssuedForName(x)
   /\ (x.tlsRequested /\ x.role = "Server" /\ x.requireClientCert /\ o.admitted) =>
-        x.clientCert = "Valid" /\ x.anchor = "RightCA"
+        x.clientCert = "Valid" /\ x.anchor = "RightCA" /\ TimeOkAt(x.certLife, x.when)
 
 -----------------------------------------------------------------------------
 (* Impl: the code's policy, one action per decision branch.                                                  *)
@@ -148,8 +200,13 @@ EngineLow == IF Dev_NoVersionFloor THEN Max2(LibMin, c.engineMin) ELSE Max2(12, 
 VersionOk == PeerMax >= EngineLow
 Negotiated == PeerMax                       \* the engine side has no ceiling: highest common version = the peer's ceiling
 
-Client == c.role = "Client"
+\* HttpClient::parseUrl: the URL regex admits the lower-case schemes only; anything else throws before a byte is sent
+HttpUrlBad == c.via = "HttpClient" /\ c.scheme \notin {"https", "http"}
+Client == c.role = "Client" /\ ~HttpUrlBad
 Server == c.role = "Server"
+\* the moment the validity period is compared with: the handshake's own time
+JudgedAt  == IF Dev_VerifyClockFrozenAtStart /\ c.transport = "Reused" THEN "Before" ELSE c.when
+ImplTimeOk == TimeOkAt(c.certLife, JudgedAt)
 TlsAttempt == c.tlsRequested /\ c.tlsEnabled
 NoContext  == c.tlsRequested /\ ~c.tlsEnabled
 
@@ -158,14 +215,21 @@ NameChecked == /\ c.byName
                /\ IF c.via = "HttpClient" THEN ~Dev_NoHostnameCheck_HttpClient ELSE ~Dev_NoHostnameCheck_Transport
 ServerCertAccepted ==
   \/ ~c.verify
-  \/ /\ ChainsToAnchor(c) /\ WithinValidity(c)
+  \/ /\ ChainsToAnchor(c) /\ c.serverCert # "Expired" /\ ImplTimeOk
      /\ NameChecked => IssuedForName(c)
 ClientCertAccepted ==
   \/ ~c.requireClientCert
-  \/ c.clientCert = "Valid" /\ c.anchor = "RightCA"
+  \/ c.clientCert = "Valid" /\ c.anchor = "RightCA" /\ ImplTimeOk
 
 Decide(o) == pc = "cfg" /\ pc' = "done" /\ out' = o /\ UNCHANGED c
 
+\* ---- HttpClient URL handling (parseUrl / isHttps / acquireConnection)
+HttpUrlRefused           == c.role = "Client" /\ HttpUrlBad
+                            /\ ~(Dev_HttpSchemeCaseDowngrade /\ c.scheme \in HttpsCaseVariants)
+                            /\ Decide(Outc(TRUE, FALSE, FALSE, 0, "HttpUrlRefused"))
+Dev_HttpSchemeDowngrade  == c.role = "Client" /\ HttpUrlBad
+                            /\ Dev_HttpSchemeCaseDowngrade /\ c.scheme \in HttpsCaseVariants
+                            /\ Decide(Outc(TRUE, TRUE, TRUE, 0, "Dev_HttpSchemeDowngrade"))
 \* ---- engine = client (doConnect / driveHandshake)
 ConnectPlainByRequest    == Client /\ ~c.tlsRequested /\ Decide(Outc(TRUE, TRUE, TRUE, 0, "ConnectPlainByRequest"))
 ConnectRefusedNoContext  == Client /\ NoContext /\ ~Dev_PlaintextFallbackWhenTlsNotEnabled
@@ -211,7 +275,8 @@ AcceptHandshakeOk        == Server /\ ~StartFails /\ TlsAttempt /\ c.peerKind = 
                             /\ Decide(Outc(TRUE, TRUE, FALSE, Negotiated, "AcceptHandshakeOk"))
 
 Init == pc = "cfg" /\ out = NoOut /\ IsCase(c)
-Next == \/ ConnectPlainByRequest \/ ConnectRefusedNoContext \/ Dev_ConnectPlainFallback \/ ConnectNonTlsPeer
+Next == \/ HttpUrlRefused \/ Dev_HttpSchemeDowngrade
+        \/ ConnectPlainByRequest \/ ConnectRefusedNoContext \/ Dev_ConnectPlainFallback \/ ConnectNonTlsPeer
         \/ ConnectVersionRefused \/ ConnectNoPossession \/ ConnectVerifyFails \/ ConnectHandshakeOk
         \/ ListenStartFails \/ ListenPlainByRequest \/ ListenRefusedNoContext \/ Dev_ListenPlainFallback
         \/ AcceptNonTlsPeer \/ AcceptVersionRefused \/ AcceptClientCertRejected \/ Dev_AcceptWithoutClientCert
